@@ -1483,6 +1483,19 @@ def _subscript_list_by_mask(it, base, idx):
                                                            complete_at=(lambda c: z3.Implies(z3.And(c >= 0, c < zi(base.n), mf(c)),
                                                                                             z3.And(rnk(c) >= 0, rnk(c) < cnt, sel(rnk(c)) == c)))))
         return r
+    if isinstance(base, SymList) and not isinstance(base, EnumList) and isinstance(idx, NDArray):
+        if idx.dtype == 'int' and idx.rank == 1 and not it.pure:
+            # gather through an integer index array (e.g. a slice of an argsort permutation)
+            if idx.perm is None or not implied(it, zi(idx.perm[2]) == zi(base.n)):
+                raise Unsupported('list indexed by an integer array that is not (a slice of) an argsort permutation of its positions')
+            run = it.run
+            arr = run.fresh('gathered', base.arr.sort())
+            g, src_arr = idx.fn, base.arr
+            fact(run, QA(idx.shape[0], lambda t: arr[t] == src_arr[g(t)]))
+            r = SymList(zi(idx.shape[0]), arr, base.elem)
+            run.__dict__.setdefault('np_gathers', []).append(dict(n=r.n, arr=arr, index=(lambda t: g(t)), parent=M.snapshot(base), perm=idx.perm))
+            return r
+        raise Unsupported('array-list indexed by a %s array of rank %d' % (idx.dtype, idx.rank))
     return _orig_subscript(it, base, idx)
 
 
